@@ -88,9 +88,9 @@ def main():
                     if t == "i":
                         row.append(rng.randint(-3, 6))
                     elif t == "d":
-                        row.append(rng.choice([0.5, 1.5, -2.25, 3.0, 1e10, 0.0]))
+                        row.append(rng.choice([0.5, 1.5, -2.25, 3.0, 1e10, 0.0, 1e+20, 12345678.5]))
                     else:
-                        row.append(rng.choice(["u", "vw", "x", "abc", "A b"]))
+                        row.append(rng.choice(["u", "vw", "x", "abc", "A b", "a+b", "a b"]))
                 rows.append(tuple(row))
             # ---- three backends
             def build(backend):
@@ -133,9 +133,9 @@ def main():
                         clauses.append((cols[j], rng.choice(list(PYOP)), "col", cols[k]))
                     else:
                         if types[j] == "s":
-                            clauses.append((cols[j], rng.choice(["=", "!="]), "const", rng.choice(["u", "vw", "zz", "A b"])))
+                            clauses.append((cols[j], rng.choice(["=", "!="]), "const", rng.choice(["u", "vw", "zz", "A b", "a+b", "a b"])))
                         elif types[j] == "d":
-                            clauses.append((cols[j], rng.choice(list(PYOP)), "const", rng.choice([0.5, 1.5, 0.0, 2.0])))
+                            clauses.append((cols[j], rng.choice(list(PYOP)), "const", rng.choice([0.5, 1.5, 0.0, 2.0, 1e+20, 12345678.5])))
                         else:
                             clauses.append((cols[j], rng.choice(list(PYOP)), "const", rng.randint(-2, 5)))
                 want = reference(cols, types, rows, want_cols, rng_slice, clauses)
